@@ -123,6 +123,7 @@ def run(tier):
     from rules import C11
     C11.rule_R1(res, prog, cg, prop=PROP, rid="C04.R4")
     rule_R5(res, prog)
+    rule_R6(res, prog)
     return res.finish()
 
 
@@ -298,3 +299,93 @@ def rule_R5(res, prog):
                      "algorithm the library implements is accepted" % (pv.relfile, pv.line), file=pv.relfile, line=pv.line)
     res.instance(rid, "tls13ParseCertificateVerify looks the algorithm up in an advertised list", has, finding=f_)
     res.floor(rid, 1)
+
+
+def rule_R6(res, prog):
+    """PSK authentication needs a PSK: ssl->sec.tls13UsingPsk - which makes both roles skip Certificate / CertificateVerify -
+    is set to TRUE only where the chosen PSK is established non-NULL on that path: a branch fact on the pointer stored
+    into (or read from) tls13ChosenPsk, an earlier dereference of that pointer in a dominating block, or the true outcome
+    of a predicate function whose body tests tls13ChosenPsk != NULL."""
+    from sa import cfgutil as cu
+    from sa.pp import pp
+    rid = "C04.R6"
+    res.rule(rid, "tls13UsingPsk = TRUE is stored only where a non-NULL chosen PSK is established on the path")
+    # predicate functions: return TRUE only under tls13ChosenPsk != NULL
+    preds = set()
+    for fn in prog.functions.values():
+        if not fn.blocks or len(fn.blocks) > 12:
+            continue
+        gf = cu.guard_facts(fn)
+        rets = [(b, x) for b in fn.blocks for i, ln, x in cu.block_exprs(b) if x.get("k") == "ret"]
+        if not rets:
+            continue
+        good = True
+        any_true = False
+        for b, x in rets:
+            e = strip(x.get("e")) if x.get("e") is not None else None
+            if e is not None and e.get("k") == "int" and e["v"] == 0:
+                continue
+            any_true = True
+            facts = gf.get(b["id"], frozenset())
+            if not any(tr and "tls13ChosenPsk" in t_ and ("!= 0" in t_ or t_.endswith("tls13ChosenPsk")) for (t_, tr) in facts):
+                good = False
+        if good and any_true:
+            preds.add(fn.name)
+    n = 0
+    for fn in sorted(prog.functions.values(), key=lambda f: f.qname):
+        if not fn.blocks or not fn.relfile.startswith("matrixssl/"):
+            continue
+        gf = dom = None
+        for b in fn.blocks:
+            for i, ln, x in cu.block_exprs(b):
+                for nd in walk(x):
+                    if not (nd.get("k") == "bin" and nd["op"] == "=" and (strip(nd["l"]) or {}).get("f") == "tls13UsingPsk" and
+                            (strip(nd["r"]) or {}).get("k") == "int" and strip(nd["r"])["v"] != 0):
+                        continue
+                    n += 1
+                    if gf is None:
+                        gf = cu.guard_facts(fn)
+                        dom = cu.dominators(fn)
+                    facts = gf.get(b["id"], frozenset())
+                    # the pointer stored into tls13ChosenPsk in this function (if any)
+                    srcs = set()
+                    for b2, l2, m in fn.nodes():
+                        if m.get("k") == "bin" and m["op"] == "=" and (strip(m["l"]) or {}).get("f") == "tls13ChosenPsk":
+                            r_ = strip(m["r"])
+                            if r_ is not None and r_.get("k") == "var":
+                                srcs.add(r_["n"])
+                    ok = False
+                    why = []
+                    for (t_, tr) in facts:
+                        if tr and (t_ in srcs or t_ == "ssl->sec.tls13ChosenPsk" or t_ in ("(%s != 0)" % s_ for s_ in srcs) or
+                                   t_ == "(ssl->sec.tls13ChosenPsk != 0)"):
+                            ok = True
+                            why.append("branch fact %s" % t_)
+                        if tr and any(t_.startswith(p_ + "(") for p_ in preds):
+                            ok = True
+                            why.append("predicate %s" % t_[:30])
+                    if not ok and srcs:
+                        # an earlier dereference of the source pointer in a dominating block
+                        for b2 in fn.blocks:
+                            if b2["id"] not in dom[b["id"]]:
+                                continue
+                            for i2, l2, x2 in cu.block_exprs(b2):
+                                if b2["id"] == b["id"] and i2 == i:
+                                    break
+                                for m in walk(x2):
+                                    if m.get("k") == "mem" and m.get("arrow") and (strip(m.get("b") or {}) or {}).get("k") in ("cast", "var"):
+                                        v = strip(m["b"])
+                                        while v is not None and v.get("k") == "cast":
+                                            v = strip(v["e"])
+                                        if v is not None and v.get("k") == "var" and v.get("n") in srcs and v.get("sc") == "p":
+                                            ok = True
+                                            why.append("%s dereferenced at line %s" % (v["n"], l2))
+                    f_ = None
+                    if not ok:
+                        f_ = Finding(PROP, rid, fn.name, "PSK mode entered without an established PSK",
+                                     "%s:%s %s(): ssl->sec.tls13UsingPsk = TRUE on a path where the chosen PSK (%s) is not established "
+                                     "non-NULL: with tls13UsingPsk set and no PSK the handshake skips Certificate / CertificateVerify and runs "
+                                     "the key schedule with an all-zero PSK - a peer holding no credential completes the handshake" % (
+                                         fn.relfile, ln, fn.name, sorted(srcs) or "ssl->sec.tls13ChosenPsk"), file=fn.relfile, line=ln)
+                    res.instance(rid, "%s:%s tls13UsingPsk = TRUE (%s)" % (fn.name, ln, "; ".join(sorted(set(why)))[:80] or "nothing established"), ok, finding=f_)
+    res.floor(rid, 3)
